@@ -29,6 +29,8 @@ is left as it is and the rules see the code as written.
 import ast
 import copy
 
+from . import alias as _alias
+
 MAX_UNROLL = 24
 
 
@@ -230,6 +232,8 @@ def _is_literal(e):
 
 
 class _SubstNames(ast.NodeTransformer):
+    """replace reads of names by expressions; a nested scope (lambda, comprehension, def) that binds a name of its own hides it"""
+
     def __init__(self, mapping):
         self.m = mapping
 
@@ -237,6 +241,34 @@ class _SubstNames(ast.NodeTransformer):
         if isinstance(n.ctx, ast.Load) and n.id in self.m:
             return copy.deepcopy(self.m[n.id])
         return n
+
+    def _scoped(self, n, bound):
+        hidden = {k for k in bound if k in self.m}
+        if not hidden:
+            return self.generic_visit(n)
+        saved = self.m
+        self.m = {k: v for k, v in saved.items() if k not in hidden}
+        try:
+            return self.generic_visit(n)
+        finally:
+            self.m = saved
+
+    def visit_Lambda(self, n):
+        a = n.args
+        return self._scoped(n, {x.arg for x in a.posonlyargs + a.args + a.kwonlyargs + ([a.vararg] if a.vararg else []) + ([a.kwarg] if a.kwarg else [])})
+
+    def visit_FunctionDef(self, n):
+        a = n.args
+        bound = {x.arg for x in a.posonlyargs + a.args + a.kwonlyargs + ([a.vararg] if a.vararg else []) + ([a.kwarg] if a.kwarg else [])}
+        bound |= _stores(n.body)
+        return self._scoped(n, bound)
+
+    visit_AsyncFunctionDef = visit_FunctionDef
+
+    def _comp(self, n):
+        return self._scoped(n, {x.id for g in n.generators for x in ast.walk(g.target) if isinstance(x, ast.Name)})
+
+    visit_ListComp = visit_SetComp = visit_DictComp = visit_GeneratorExp = _comp
 
 
 def _subst(node, mapping):
@@ -274,7 +306,93 @@ def _scope_binding_counts(body):
     return counts
 
 
-def propagate_new_constants(tree, ref_globals):
+def _parents(tree):
+    par = {}
+    for p_ in ast.walk(tree):
+        for ch in ast.iter_child_nodes(p_):
+            par[id(ch)] = p_
+    return par
+
+
+def _has_mutable(e):
+    return any(isinstance(x, (ast.List, ast.Dict, ast.Set)) for x in ast.walk(e))
+
+
+def _nested_mutable(e):
+    """a mutable container inside the literal (a list of lists): its items could be changed through any read"""
+    return any(isinstance(x, (ast.List, ast.Dict, ast.Set)) and x is not e for x in ast.walk(e))
+
+
+_CONSUMERS = {"len", "tuple", "list", "sorted", "set", "frozenset", "dict", "any", "all", "sum", "min", "max", "str", "repr", "isinstance", "bool"}
+_LAZY = {"enumerate", "zip", "reversed", "iter", "map", "filter"}
+_READ_METHODS = {"items", "keys", "values", "get", "index", "count", "copy"}
+
+
+def _read_only_use(node, par):
+    """is this read of a list / dict / set constant one that cannot change the object or let it escape: iteration, `in`,
+    indexing, len()/tuple()/sorted()/.., .items()/.get()/.., `*table`"""
+    p_ = par.get(id(node))
+    if isinstance(p_, (ast.For, ast.AsyncFor, ast.comprehension)) and p_.iter is node:
+        return True
+    if isinstance(p_, ast.Compare) and node in p_.comparators and len(p_.ops) == 1 and isinstance(p_.ops[0], (ast.In, ast.NotIn)):
+        return True
+    if isinstance(p_, ast.Subscript) and p_.value is node and isinstance(p_.ctx, ast.Load):
+        return True
+    if isinstance(p_, ast.Starred) and isinstance(p_.ctx, ast.Load):
+        return True
+    if isinstance(p_, ast.Call) and node in p_.args and isinstance(p_.func, ast.Attribute) and _alias.reads_only(p_) \
+            and (_alias.call_kind(p_) == "fresh"):
+        return True       # np.isin(x, TABLE), np.array(TABLE): numpy reads its arguments and hands back a new array
+    if isinstance(p_, ast.Call) and node in p_.args and isinstance(p_.func, ast.Name):
+        if p_.func.id in _CONSUMERS:
+            return True
+        if p_.func.id in _LAZY:
+            return _read_only_use(p_, par) or isinstance(par.get(id(p_)), ast.Call) and isinstance(par[id(p_)].func, ast.Name) \
+                and par[id(p_)].func.id in _CONSUMERS
+    if isinstance(p_, ast.Attribute) and p_.value is node and p_.attr in _READ_METHODS:
+        g = par.get(id(p_))
+        if isinstance(g, ast.Call) and g.func is p_:
+            return p_.attr in ("get", "index", "count", "copy") or _read_only_use(g, par) or \
+                isinstance(par.get(id(g)), ast.Call) and isinstance(par[id(g)].func, ast.Name) and par[id(g)].func.id in _CONSUMERS
+    return False
+
+
+_PKG_TEXTS = {}
+
+
+def _bound_elsewhere(name, rel):
+    """is `name` defined or assigned in another module of the package?  (a subclass there may override a method / class constant
+    that is read through `self`)"""
+    import os
+    import re
+    from .core import REPO, SRC
+    root = os.path.join(REPO, SRC)
+    if root not in _PKG_TEXTS:
+        texts = {}
+        for d, _, files in os.walk(root):
+            for f in files:
+                if f.endswith((".py", ".pyx", ".pxd")):
+                    pth = os.path.join(d, f)
+                    try:
+                        texts[os.path.relpath(pth, root)] = open(pth, encoding="utf-8", errors="replace").read()
+                    except OSError:
+                        pass
+        _PKG_TEXTS[root] = texts
+    pat = re.compile(r"(\bdef\s+|\bcdef\s+[\w\[\], .*]*?\s|\bcpdef\s+[\w\[\], .*]*?\s|^\s*)" + re.escape(name) + r"\s*(\(|=[^=]|:)", re.M)
+    for r_, t in _PKG_TEXTS[root].items():
+        if r_ != rel and name in t and pat.search(t):
+            return True
+    return False
+
+
+def _bound_in_other_class(tree, cnode, name):
+    for c in ast.walk(tree):
+        if isinstance(c, ast.ClassDef) and c is not cnode and _scope_binding_counts(c.body).get(name):
+            return True
+    return False
+
+
+def propagate_new_constants(tree, ref_globals, rel=None):
     consts = {}
     counts = {}
     for st in tree.body:
@@ -288,18 +406,39 @@ def propagate_new_constants(tree, ref_globals):
     all_counts = _scope_binding_counts(tree.body)
     declared_global = {nm_ for x in ast.walk(tree) if isinstance(x, ast.Global) for nm_ in x.names}
     consts = {k: v for k, v in consts.items() if counts.get(k) == 1 and all_counts.get(k) == 1 and k not in declared_global}
+    par = None
+    # a list / dict / set is an object, not a value: it stands for its literal only if every read in the module is one that
+    # cannot change it or hand it on (`TABLE.reverse()`, `f(TABLE)`, `x = TABLE` keep the name)
+    for k in [k for k, v in consts.items() if _has_mutable(v)]:
+        par = par or _parents(tree)
+        uses = [x for x in ast.walk(tree) if isinstance(x, ast.Name) and x.id == k and isinstance(x.ctx, ast.Load)]
+        if _nested_mutable(consts[k]) or not all(_read_only_use(x, par) for x in uses):
+            del consts[k]
     n = 0
     # class-level constants the reference does not have: `_TABLE = {..}` in a class body, read as Cls._TABLE / Outer.Cls._TABLE /
     # self._TABLE / cls._TABLE (one binding in the class body, never assigned through an attribute anywhere in the module)
     attr_stores = {x.attr for x in ast.walk(tree) if isinstance(x, ast.Attribute) and isinstance(x.ctx, (ast.Store, ast.Del))}
+    attr_stores |= {x.args[1].value for x in ast.walk(tree) if isinstance(x, ast.Call) and isinstance(x.func, ast.Name) and x.func.id in ("setattr", "delattr")
+                    and len(x.args) >= 2 and isinstance(x.args[1], ast.Constant) and isinstance(x.args[1].value, str)}
+    dynamic_setattr = any(isinstance(x, ast.Call) and isinstance(x.func, ast.Name) and x.func.id in ("setattr", "delattr") and len(x.args) >= 2
+                          and not isinstance(x.args[1], ast.Constant) for x in ast.walk(tree))
     for cnode in [c for c in ast.walk(tree) if isinstance(c, ast.ClassDef)]:
         counts_c = _scope_binding_counts(cnode.body)
         cc = {st.targets[0].id: st.value for st in cnode.body if isinstance(st, ast.Assign) and len(st.targets) == 1
               and isinstance(st.targets[0], ast.Name) and _is_literal(st.value) and st.targets[0].id.startswith("_")
-              and counts_c.get(st.targets[0].id) == 1 and st.targets[0].id not in attr_stores
+              and counts_c.get(st.targets[0].id) == 1 and st.targets[0].id not in attr_stores and not dynamic_setattr
               and f"{cnode.name}.{st.targets[0].id}" not in ref_globals and st.targets[0].id not in ref_globals}
         if not cc:
             continue
+        # `self._X` / `cls._X` is looked up in the class of the object: a subclass (here or in another module) that binds the
+        # name as well would win
+        overridable = {k for k in cc if _bound_in_other_class(tree, cnode, k) or (rel is not None and _bound_elsewhere(k, rel))}
+        par = par or _parents(tree)
+        for k in [k for k, v in cc.items() if _has_mutable(v)]:
+            uses = [x for x in ast.walk(tree) if isinstance(x, ast.Attribute) and x.attr == k and isinstance(x.ctx, ast.Load)]
+            if _nested_mutable(cc[k]) or not all(_read_only_use(x, par) for x in uses):
+                del cc[k]
+        # inside the class body the name is read bare (`_B = _A + 1`): left alone, such a reader is not a literal anyway
 
         class R(ast.NodeTransformer):
             def visit_Attribute(self, a):
@@ -307,12 +446,27 @@ def propagate_new_constants(tree, ref_globals):
                 if isinstance(a.ctx, ast.Load) and a.attr in cc:
                     base = a.value
                     owner = base.attr if isinstance(base, ast.Attribute) else base.id if isinstance(base, ast.Name) else None
-                    if owner in (cnode.name, "self", "cls"):
+                    if owner == cnode.name or owner in ("self", "cls") and a.attr not in overridable:
                         nonlocal n
                         n += 1
                         return copy.deepcopy(cc[a.attr])
                 return a
-        R().visit(tree)
+        # only methods of the class itself read `self._X` with that meaning
+        for m_ in cnode.body:
+            R().visit(m_)
+
+        class R2(ast.NodeTransformer):
+            def visit_Attribute(self, a):
+                self.generic_visit(a)
+                owner = a.value.attr if isinstance(a.value, ast.Attribute) else a.value.id if isinstance(a.value, ast.Name) else None
+                if isinstance(a.ctx, ast.Load) and a.attr in cc and owner == cnode.name:
+                    nonlocal n
+                    n += 1
+                    return copy.deepcopy(cc[a.attr])
+                return a
+        for st in tree.body:
+            if st is not cnode:
+                R2().visit(st)
     if not consts:
         return n
     for q, fn in _iter_funcs(tree):
@@ -444,9 +598,41 @@ def _dissolve_continue(body):
     return body
 
 
-def _unrollable(st):
+def _bound_by_other_loop(fn, x, st):
+    """is the occurrence `x` of a name governed by another loop / comprehension (not containing `st`) that binds the name itself"""
+    for lp in ast.walk(fn):
+        if lp is st:
+            continue
+        if isinstance(lp, (ast.For, ast.AsyncFor)):
+            tn = {t.id for t in ast.walk(lp.target) if isinstance(t, ast.Name)}
+            if x.id in tn and not any(y is st for y in ast.walk(lp)) and \
+                    any(y is x for part in [lp.target] + lp.body for y in ast.walk(part)):
+                return True
+        elif isinstance(lp, (ast.ListComp, ast.SetComp, ast.DictComp, ast.GeneratorExp)):
+            tn = {t.id for g in lp.generators for t in ast.walk(g.target) if isinstance(t, ast.Name)}
+            if x.id in tn and any(y is x for y in ast.walk(lp)) and not any(y is x for y in ast.walk(lp.generators[0].iter)):
+                return True
+    return False
+
+
+def _unrollable(st, fn=None):
     if st.orelse:
         return False
+    tn_ = {n.id for n in ast.walk(st.target) if isinstance(n, ast.Name)}
+    # late binding: a lambda / nested function in the body reads the target when it is called, not when it is made
+    for n in ast.walk(st):
+        if isinstance(n, (ast.Lambda, ast.FunctionDef, ast.AsyncFunctionDef)) and any(isinstance(x, ast.Name) and x.id in tn_ for x in ast.walk(n)):
+            return False
+    if fn is not None:
+        # the target is a variable of the function: after the loop it holds the last item (and it hides a parameter of the
+        # same name) - every other occurrence must belong to another loop that binds the name again
+        inside = {id(x) for x in ast.walk(st)}
+        for x in ast.walk(fn):
+            if isinstance(x, ast.Name) and x.id in tn_ and id(x) not in inside and not isinstance(x.ctx, ast.Store) \
+                    and not _bound_by_other_loop(fn, x, st):
+                return False         # a read outside the loop may see the last item (a plain store elsewhere binds it anew)
+            if isinstance(x, (ast.Global, ast.Nonlocal)) and tn_ & set(x.names):
+                return False
     st.body = _dissolve_continue(st.body) if any(isinstance(n, ast.Continue) for n in ast.walk(st)) and _literal_iter(st) is not None else st.body
     for n in ast.walk(st):
         if isinstance(n, (ast.Break, ast.Continue)):
@@ -491,7 +677,7 @@ def unroll_new_literal_loops(tree, ref_loops):
                     txt = _key(ast.unparse(st.iter))
                     if subs is not None and txt in known:
                         known.remove(txt)      # a loop the rules know: keep it as it is
-                    elif subs is not None and _unrollable(st):
+                    elif subs is not None and _unrollable(st, fn):
                         if True:
                             # names that live inside one iteration only (bound in the body, not read or bound outside the loop) get a
                             # name of their own per iteration: each copy is then a single assignment again
@@ -602,7 +788,139 @@ def _helper_kind(fn):
     return None
 
 
-def inline_new_helpers(tree, ref_funcs):
+def _all_bound_names(fn):
+    """every name bound anywhere inside a function (its own scope and nested scopes): parameters, stores, defs, imports"""
+    out = set()
+    for x in ast.walk(fn):
+        if isinstance(x, ast.Name) and isinstance(x.ctx, (ast.Store, ast.Del)):
+            out.add(x.id)
+        elif isinstance(x, ast.arg):
+            out.add(x.arg)
+        elif isinstance(x, (ast.FunctionDef, ast.AsyncFunctionDef, ast.ClassDef)) and x is not fn:
+            out.add(x.name)
+        elif isinstance(x, ast.alias):
+            out.add((x.asname or x.name).split(".")[0])
+        elif isinstance(x, (ast.Global, ast.Nonlocal)):
+            out.update(x.names)
+        elif isinstance(x, ast.ExceptHandler) and x.name:
+            out.add(x.name)
+    return out
+
+
+def _effect_free_argument(e):
+    """an argument whose evaluation cannot change anything or depend on when it happens relative to calls: no call inside"""
+    return not any(isinstance(x, (ast.Call, ast.Await, ast.NamedExpr, ast.Yield, ast.YieldFrom, ast.Lambda, ast.ListComp, ast.SetComp,
+                                  ast.DictComp, ast.GeneratorExp)) for x in ast.walk(e))
+
+
+def _unconditional_reads(expr, name):
+    """(number of reads of `name` in expr, are all of them evaluated unconditionally exactly once)"""
+    count = [0]
+    ok = [True]
+
+    def walk(x, cond):
+        if isinstance(x, ast.Name) and x.id == name:
+            count[0] += 1
+            if cond:
+                ok[0] = False
+            return
+        if isinstance(x, ast.IfExp):
+            walk(x.test, cond)
+            walk(x.body, True)
+            walk(x.orelse, True)
+            return
+        if isinstance(x, ast.BoolOp):
+            walk(x.values[0], cond)
+            for v in x.values[1:]:
+                walk(v, True)
+            return
+        if isinstance(x, (ast.Lambda, ast.ListComp, ast.SetComp, ast.DictComp, ast.GeneratorExp)):
+            for ch in ast.iter_child_nodes(x):
+                walk(ch, True)
+            return
+        for ch in ast.iter_child_nodes(x):
+            walk(ch, cond)
+    walk(expr, False)
+    return count[0], ok[0]
+
+
+def _by_name_safe(body, light, m, caller_groups):
+    """May the call-free argument expressions bound to the parameters `light` be evaluated where the parameters are read,
+    instead of once before the body?  `a.b`, `x[i]` name (a part of) an object; reading them later gives the same thing unless
+    something before the read may have changed the object they are taken from: a store into it, a call that is not known to be
+    read-only and receives it - through the parameter itself (for `x[i]`, which may be a copy) or through another parameter
+    whose argument may be the same object (`m`: parameter -> argument, `caller_groups`: alias classes of the calling function)."""
+    def names_of(e):
+        return {x.id for x in ast.walk(e) if isinstance(x, ast.Name)}
+
+    def one(p_):
+        arg = m[p_]
+        origin = _alias.closure_of(names_of(arg), caller_groups)
+        w = {q for q, a in m.items() if q != p_ and names_of(a) & origin}
+        if any(isinstance(x, ast.Subscript) for x in ast.walk(arg)):
+            w.add(p_)
+
+        def reads(node):
+            return any(isinstance(x, ast.Name) and x.id == p_ and isinstance(x.ctx, ast.Load) for x in ast.walk(node))
+
+        def simple_ok(st):
+            # a call that may write evaluates its arguments first: reads among them are safe, reads elsewhere in the statement are not
+            for x in ast.walk(st):
+                if isinstance(x, ast.Call) and _writes_through(ast.Expr(value=x), w):
+                    inside = {id(y) for a in list(x.args) + [k.value for k in x.keywords] for y in ast.walk(a)}
+                    if any(isinstance(y, ast.Name) and y.id == p_ and isinstance(y.ctx, ast.Load) and id(y) not in inside for y in ast.walk(st)):
+                        return False
+            if isinstance(st, (ast.Assign, ast.AugAssign, ast.AnnAssign)):
+                tg = st.targets if isinstance(st, ast.Assign) else [st.target]
+                if any(reads(t) for t in tg) and st.value is not None and _writes_through(ast.Expr(value=st.value), w):
+                    return False
+            return True
+
+        def walk(block, dirty):
+            for st in block:
+                if isinstance(st, (ast.FunctionDef, ast.AsyncFunctionDef, ast.ClassDef)):
+                    if reads(st):
+                        return None
+                    continue
+                if isinstance(st, ast.If):
+                    if reads(st.test) and (dirty or not simple_ok(ast.Expr(value=st.test))):
+                        return None
+                    d0 = dirty or _writes_through(ast.Expr(value=st.test), w)
+                    d1, d2 = walk(st.body, d0), walk(st.orelse, d0)
+                    if d1 is None or d2 is None:
+                        return None
+                    dirty = d1 or d2
+                    continue
+                if isinstance(st, (ast.For, ast.AsyncFor, ast.While, ast.Try, ast.With, ast.AsyncWith, ast.Match)):
+                    if reads(st) and (dirty or _writes_through(st, w)):
+                        return None
+                    dirty = dirty or _writes_through(st, w)
+                    continue
+                if reads(st) and (dirty or not simple_ok(st)):
+                    return None
+                dirty = dirty or _writes_through(st, w)
+            return dirty
+        return walk(body, False) is not None
+    return all(one(p_) for p_ in light)
+
+
+def _by_value_ok(fn, expr_parts, m, groups=None):
+    """may the arguments of this call be written into the helper's expression(s) in place of the parameters?  Python evaluates
+    each argument once, in order, before the body.  Arguments without calls can be copied freely; an argument that contains
+    a call must be the only such argument and must be read exactly once, unconditionally."""
+    heavy = [p_ for p_, a in m.items() if not _effect_free_argument(a)]
+    light = {p_ for p_, a in m.items() if _effect_free_argument(a) and not isinstance(a, (ast.Name, ast.Constant))}
+    if light and not _by_name_safe([b for b in fn.body if not _is_doc(b)], light, m, groups() if groups else {}):
+        return False
+    if not heavy:
+        return True
+    if len(heavy) > 1 or len(expr_parts) != 1:
+        return False
+    cnt, uncond = _unconditional_reads(expr_parts[0], heavy[0])
+    return cnt == 1 and uncond
+
+
+def inline_new_helpers(tree, ref_funcs, rel=None):
     from .exprnorm import summarize   # late import: exprnorm imports core
 
     all_funcs = dict(_iter_funcs(tree))
@@ -618,8 +936,19 @@ def inline_new_helpers(tree, ref_funcs):
         if "." not in q:
             return any(x is fn for x in tree.body) and mod_counts.get(fn.name) == 1 and fn.name not in declared_global
         cls = next((c for c in tree.body if isinstance(c, ast.ClassDef) and c.name == q.split(".")[0]), None)
-        return cls is not None and any(x is fn for x in cls.body) and _scope_binding_counts(cls.body).get(fn.name) == 1 \
-            and mod_counts.get(cls.name) == 1
+        if not (cls is not None and any(x is fn for x in cls.body) and _scope_binding_counts(cls.body).get(fn.name) == 1
+                and mod_counts.get(cls.name) == 1):
+            return False
+        # `self._h()` is looked up in the class of the object: another class that binds the name (a subclass overriding it,
+        # here or in another module), or an assignment `obj._h = ..`, may put a different function there
+        if _bound_in_other_class(tree, cls, fn.name) or fn.name in attr_stores or dynamic_setattr:
+            return False
+        return not (rel is not None and _bound_elsewhere(fn.name, rel))
+    attr_stores = {x.attr for x in ast.walk(tree) if isinstance(x, ast.Attribute) and isinstance(x.ctx, (ast.Store, ast.Del))}
+    attr_stores |= {x.args[1].value for x in ast.walk(tree) if isinstance(x, ast.Call) and isinstance(x.func, ast.Name) and x.func.id in ("setattr", "delattr")
+                    and len(x.args) >= 2 and isinstance(x.args[1], ast.Constant) and isinstance(x.args[1].value, str)}
+    dynamic_setattr = any(isinstance(x, ast.Call) and isinstance(x.func, ast.Name) and x.func.id in ("setattr", "delattr") and len(x.args) >= 2
+                          and not isinstance(x.args[1], ast.Constant) for x in ast.walk(tree))
     new = {q: fn for q, fn in new.items() if unique_def(q, fn)}
     info = {}
     for q, fn in new.items():
@@ -646,12 +975,17 @@ def inline_new_helpers(tree, ref_funcs):
     count = 0
     uid = [0]
 
+    scope = {"bound": set(), "self_ok": False, "groups": lambda: {}}
+
     def match(call, cls):
-        """helper key for a call node inside class `cls` (or None)"""
+        """helper key for a call node inside class `cls` (or None).  The name must mean the helper where the call stands: a
+        parameter, local, nested def or import of the calling function with the same name hides the module-level helper, and
+        `self` must be the method's own first parameter"""
         f = call.func
-        if isinstance(f, ast.Name) and f.id in info and not info[f.id][3]:
+        if isinstance(f, ast.Name) and f.id in info and not info[f.id][3] and f.id not in scope["bound"]:
             return f.id, None
-        if isinstance(f, ast.Attribute) and isinstance(f.value, ast.Name) and f.value.id == "self" and cls and f"{cls}.{f.attr}" in info:
+        if isinstance(f, ast.Attribute) and isinstance(f.value, ast.Name) and f.value.id == "self" and cls and f"{cls}.{f.attr}" in info \
+                and scope["self_ok"]:
             return f"{cls}.{f.attr}", f.value
         return None
 
@@ -666,7 +1000,7 @@ def inline_new_helpers(tree, ref_funcs):
             if k and info[k[0]][1] == "expr":
                 fn, _, expr, is_method = info[k[0]]
                 m = _bind_call(fn, n, is_method)
-                if m is not None:
+                if m is not None and _by_value_ok(fn, [expr], m, scope["groups"]):
                     if is_method:
                         m[_simple_params(fn)[0]] = k[1]
                     count += 1
@@ -696,7 +1030,7 @@ def inline_new_helpers(tree, ref_funcs):
             if k and info[k[0]][1] == "guarded":
                 fn, _, (guards_, expr_), is_method = info[k[0]]
                 m = _bind_call(fn, call, is_method)
-                if m is not None:
+                if m is not None and _by_value_ok(fn, list(guards_) + [expr_], m, scope["groups"]):
                     if is_method:
                         m[_simple_params(fn)[0]] = k[1]
                     new_stmts = []
@@ -729,11 +1063,23 @@ def inline_new_helpers(tree, ref_funcs):
                     pre = []
                     sub = {}
                     fresh = {nm_: f"_h{uid[0]}_{nm_}" for nm_ in stores}
+                    # call-free arguments may be read in place of the parameter when nothing in the body can change an object
+                    # before the parameter is read (then evaluating them there gives what evaluating them first would)
+                    light = {p for p, a in m.items() if p not in stores and not isinstance(a, (ast.Name, ast.Constant)) and _effect_free_argument(a)}
+                    by_name = light if light and _by_name_safe([b for b in fn.body if not _is_doc(b)], light, m, scope["groups"]()) else set()
                     for p, a in m.items():
                         if p in stores:
                             pre.append(ast.Assign(targets=[ast.Name(id=fresh[p], ctx=ast.Store())], value=copy.deepcopy(a)))
-                        else:
+                        elif isinstance(a, (ast.Name, ast.Constant)) or p == (_simple_params(fn)[0] if is_method else None):
                             sub[p] = a
+                        elif p in by_name:
+                            sub[p] = a
+                        else:
+                            # call by value: the argument is evaluated once, before the body (the pass for temporaries moves it to its
+                            # use afterwards if nothing in between can change what it reads)
+                            tmp = f"_h{uid[0]}_{p}"
+                            pre.append(ast.Assign(targets=[ast.Name(id=tmp, ctx=ast.Store())], value=copy.deepcopy(a)))
+                            sub[p] = ast.Name(id=tmp, ctx=ast.Load())
                     body = [_rename(copy.deepcopy(b), fresh) for b in body]
                     new_stmts = list(pre)
                     ok = True
@@ -791,6 +1137,17 @@ def inline_new_helpers(tree, ref_funcs):
         if q in info:
             continue
         cls = q.rsplit(".", 1)[0] if "." in q else None
+        scope["bound"] = set()
+        for q2, f2 in all_funcs.items():
+            if q2 == q or q.startswith(q2 + "."):
+                scope["bound"] |= _all_bound_names(f2)
+        a_ = fn.args
+        first = (a_.posonlyargs + a_.args)[0].arg if (a_.posonlyargs + a_.args) else None
+        rebinds_self = sum(1 for x in ast.walk(fn) if isinstance(x, ast.arg) and x.arg == "self") != 1 or \
+            any(isinstance(x, ast.Name) and x.id == "self" and isinstance(x.ctx, (ast.Store, ast.Del)) for x in ast.walk(fn))
+        scope["self_ok"] = first == "self" and not rebinds_self
+        _g = {}
+        scope["groups"] = lambda fn=fn, _g=_g: _g.setdefault("v", _alias.groups(fn))
         fn.body[:] = stmt_inline(fn.body, cls)
         ExprInliner(cls).visit(fn)
         fn.body[:] = split_tuples(fn.body)
@@ -837,6 +1194,36 @@ def _remove_def(tree, fn):
 
 _WIDE_CTYPES = {"int", "long", "Py_ssize_t", "ssize_t", "int64", "np.int64_t", "double", "float64", "np.float64_t", "object", "bint"}
 
+# (kind, bits, signed) of the C number types the repository declares
+_CNUM = {
+    "bint": ("i", 1, False), "char": ("i", 8, True), "unsigned char": ("i", 8, False), "uint8": ("i", 8, False), "int8": ("i", 8, True),
+    "np.uint8_t": ("i", 8, False), "np.int8_t": ("i", 8, True), "short": ("i", 16, True), "unsigned short": ("i", 16, False),
+    "uint16": ("i", 16, False), "int16": ("i", 16, True), "np.uint16_t": ("i", 16, False), "np.int16_t": ("i", 16, True),
+    "int": ("i", 32, True), "unsigned int": ("i", 32, False), "int32": ("i", 32, True), "uint32": ("i", 32, False),
+    "np.int32_t": ("i", 32, True), "np.uint32_t": ("i", 32, False), "long": ("i", 64, True), "unsigned long": ("i", 64, False),
+    "long long": ("i", 64, True), "int64": ("i", 64, True), "uint64": ("i", 64, False), "np.int64_t": ("i", 64, True), "np.uint64_t": ("i", 64, False),
+    "Py_ssize_t": ("i", 64, True), "ssize_t": ("i", 64, True), "size_t": ("i", 64, False), "ptr": ("i", 64, False),
+    "float": ("f", 32, True), "float32": ("f", 32, True), "np.float32_t": ("f", 32, True),
+    "double": ("f", 64, True), "float64": ("f", 64, True), "np.float64_t": ("f", 64, True),
+}
+
+
+def _conversion_free(target, source):
+    """does assigning a value of C type `source` to a variable of C type `target` keep every value (no truncation, narrowing or
+    change of sign)"""
+    if target in ("object", "") or target == source:
+        return True
+    t, s_ = _CNUM.get(target), _CNUM.get(source)
+    if t is None or s_ is None:
+        return False
+    if t[0] == "f":
+        return s_[0] == "f" and t[1] >= s_[1] or s_[0] == "i" and s_[1] <= 32 and t[1] == 64 or s_[0] == "i" and s_[1] <= 16
+    if s_[0] == "f":
+        return False              # float -> integer truncates
+    if t[1] == 1:
+        return s_[1] == 1
+    return t[1] > s_[1] and (t[2] or not s_[2]) or t[1] == s_[1] and t[2] == s_[2]
+
 
 def _ctype_of_expr(e, ctype_of_name):
     """declared C type of an expression built from typed locals: a name, a fully indexed memoryview element, + - * of
@@ -852,7 +1239,16 @@ def _ctype_of_expr(e, ctype_of_name):
             if len(idx) == dims and not any(isinstance(i, ast.Slice) for i in idx):
                 return t[:t.index("[")].strip()
         return None
-    if isinstance(e, ast.BinOp) and isinstance(e.op, (ast.Add, ast.Sub, ast.Mult)):
+    if isinstance(e, ast.Constant) and isinstance(e.value, bool) or isinstance(e, (ast.Compare, ast.BoolOp)) and not isinstance(e, ast.BoolOp) \
+            or isinstance(e, ast.UnaryOp) and isinstance(e.op, ast.Not):
+        return "bint"
+    if isinstance(e, ast.Subscript) and isinstance(e.value, ast.Attribute) and e.value.attr == "shape" and not isinstance(e.slice, (ast.Slice, ast.Tuple)):
+        return "Py_ssize_t"
+    if isinstance(e, ast.Call) and isinstance(e.func, ast.Name) and e.func.id == "len" and len(e.args) == 1:
+        return "Py_ssize_t"
+    if isinstance(e, ast.Attribute) and e.attr.isupper() and isinstance(e.value, ast.Name) and e.value.id[:1].isupper():
+        return "int"       # a member of one of the repository's IntEnums (small non-negative codes)
+    if isinstance(e, ast.BinOp) and isinstance(e.op, (ast.Add, ast.Sub, ast.Mult, ast.BitOr, ast.BitAnd, ast.BitXor)):
         a, b = _ctype_of_expr(e.left, ctype_of_name), _ctype_of_expr(e.right, ctype_of_name)
         lit = lambda x: isinstance(x, ast.Constant) and isinstance(x.value, int) and not isinstance(x.value, bool)
         if lit(e.left):
@@ -908,6 +1304,8 @@ def _writes_through(st, operands):
     """does the statement (at any depth) change an object named by `operands` in place, or hand it to a call that could"""
     for x in ast.walk(st):
         if isinstance(x, ast.Call):
+            if _alias.reads_only(x):
+                continue
             touched = set()
             for a in list(x.args) + [k.value for k in x.keywords]:
                 b = a.value if isinstance(a, ast.Starred) else a
@@ -923,6 +1321,8 @@ def _writes_through(st, operands):
                     b = b.value
                 if isinstance(b, ast.Name):
                     touched.add(b.id)
+            elif isinstance(x.func, ast.Name):
+                touched.add(x.func.id)       # a nested function of the caller may change what it captured
             if touched & operands:
                 return True
         elif isinstance(x, (ast.Assign, ast.AugAssign, ast.Delete, ast.AnnAssign)):
@@ -963,6 +1363,8 @@ def inline_new_temps(tree, ref_mod, ctype=None):
                 cands[nm] = n
         if not cands:
             continue
+        alias_groups = _alias.groups(fn)
+        nested_defs = {x.name for x in ast.walk(fn) if isinstance(x, (ast.FunctionDef, ast.AsyncFunctionDef)) and x is not fn}
         # closures may read the local: leave those alone
         for sub in ast.walk(fn):
             if sub is not fn and isinstance(sub, (ast.FunctionDef, ast.AsyncFunctionDef, ast.Lambda)):
@@ -1029,7 +1431,8 @@ def inline_new_temps(tree, ref_mod, ctype=None):
             if use_stmts:
                 # nothing between the definition and the last use may change, in place, an object the expression is built from
                 # (`v[..] *= -1`, `xs.sort()`, `f(v)`) - for plain arithmetic on names as well: the names may be arrays
-                local_operands = operands & (set(stores) | set(params))
+                # ... through any name that may refer to the same object (`u = v; m = u @ w; v[..] *= -1`)
+                local_operands = (_alias.closure_of(operands, alias_groups) - {nm}) & (set(stores) | set(params) | nested_defs)
                 for st in region[:use_stmts[-1]]:
                     if _writes_through(st, local_operands):
                         n_uses = 0
@@ -1047,8 +1450,12 @@ def inline_new_temps(tree, ref_mod, ctype=None):
             if ctype is not None:
                 scope = q.split("#")[0]
                 ct = ctype(scope, nm).replace("const ", "").strip()
-                if ct and ct not in _WIDE_CTYPES and _ctype_of_expr(asg.value, lambda n_: ctype(scope, n_)) != ct:
-                    n_uses = 0
+                if ct and ct != "object":
+                    et = _ctype_of_expr(asg.value, lambda n_: ctype(scope, n_))
+                    small_int = isinstance(asg.value, ast.Constant) and isinstance(asg.value.value, int) and not isinstance(asg.value.value, bool) \
+                        and ct in _CNUM and (_CNUM[ct][0] == "f" or 0 <= asg.value.value < 2 ** (_CNUM[ct][1] - 1))
+                    if not small_int and (et is None or not _conversion_free(ct, et)):
+                        n_uses = 0
             if later_store or in_loop or uses_before or nm in operands or n_uses == 0:
                 cands.pop(nm)
         if not cands:
@@ -1178,8 +1585,8 @@ def normalise(rel, tree, inv):
     if not inv.get("dict_comps"):
         _DictComp().visit(tree)      # comprehensions over literal tables become literals (so that a table built that way is a constant)
     done["private-params"] = recover_private_params(tree, inv.get("private_params", {}))
-    done["constants"] = propagate_new_constants(tree, set(inv.get("globals", [])))
-    done["helpers"] = inline_new_helpers(tree, set(inv.get("functions", [])))
+    done["constants"] = propagate_new_constants(tree, set(inv.get("globals", [])), rel)
+    done["helpers"] = inline_new_helpers(tree, set(inv.get("functions", [])), rel)
     done["loops"] = unroll_new_literal_loops(tree, inv.get("literal_loops", {}))
     done["comprehensions"] = expand_new_literal_comprehensions(tree, inv.get("literal_comps", {}))
     from . import localnames
